@@ -117,3 +117,120 @@ Proof. intros I [D1 D2] Hnp. unfold o_quiescent, quiescent, model_obs, o_infligh
   - assert (existsb (fun e => current (table s) (fst e) (snd e)) (pinq s ++ unpinq s) = true); [|congruence].
     apply existsb_exists. exists (oid o, c). split; [|now apply current_oid]. apply in_or_app. destruct P as [[_ P]|[_ P]]; auto.
   - destruct P as (cl & Hin & _). rewrite Ec in Hin. destruct Hin. Qed.
+
+(* ---------- where the operations of the table come from ---------- *)
+Lemma op_frame_trans a b c : op_frame a b -> op_frame b c -> op_frame a c.
+Proof. unfold op_frame. intros (A1 & A2 & A3 & A4) (B1 & B2 & B3 & B4). repeat split; try congruence.
+  destruct A4 as [A4|[A4 A5]], B4 as [B4|[B4 B5]]; try (left; congruence); right; split; congruence. Qed.
+
+(* origin of an entry: an entry of the state before (same id, type, pin), or a new operation for pin p *)
+Definition from (s : st) (P : tpin -> Prop) (c : N) (o' : oper) : Prop :=
+  (exists o, aget c (table s) = Some o /\ otyp o' = otyp o /\ opin o' = opin o) \/ (P (opin o') /\ pcid (opin o') = c) \/ otyp o' <> OPin.
+
+Lemma from_frame s s' (P : tpin -> Prop) c o' : opframe s s' c -> aget c (table s') = Some o' -> from s P c o'.
+Proof. unfold opframe. intros F H. rewrite H in F. destruct (aget c (table s)) as [o|] eqn:Ho; [|contradiction].
+  left. exists o. destruct F as (_ & A & B & _). auto. Qed.
+
+Lemma enqueue_from s p typ (P : tpin -> Prop) c o' : Inv s -> typ <> ORemote -> P p ->
+  aget c (table (fst (enqueue s p typ))) = Some o' -> from s P c o'.
+Proof. intros I Ht Hp H. destruct (N.eq_dec c (pcid p)) as [->|Hn].
+  - destruct (track_new s p typ PQueued) as [[s1 i]|] eqn:Htn.
+    + destruct (enqueue_result s p typ I Ht) as (o & Ho & T & R). rewrite H in Ho. injection Ho as <-.
+      right. left. assert (E : opin o' = p).
+      { destruct (snd (enqueue s p typ)); [|apply R]. apply R. congruence. }
+      rewrite E. auto.
+    + unfold enqueue in H. rewrite Htn in H. cbn [fst] in H. left. exists o'. auto.
+  - eapply from_frame; [apply enqueue_frame; eauto|exact H]. Qed.
+
+Lemma enqueue_persist s p typ c : Inv s -> typ <> ORemote -> aget c (table s) <> None -> aget c (table (fst (enqueue s p typ))) <> None.
+Proof. intros I Ht H. destruct (N.eq_dec c (pcid p)) as [->|Hn].
+  - destruct (enqueue_result s p typ I Ht) as (o & Ho & _). congruence.
+  - pose proof (enqueue_frame s p typ c I Ht Hn) as F. unfold opframe in F. destruct (aget c (table s)); [|congruence].
+    destruct (aget c (table (fst (enqueue s p typ)))); [discriminate|contradiction]. Qed.
+
+Lemma recover_with_from s c0 x (P : tpin -> Prop) c o' : Inv s -> (forall c p, aget c (pinset s) = Some p -> pcid p = c /\ P p) ->
+  aget c (table (fst (recover_with s c0 x))) = Some o' -> from s P c o'.
+Proof. intros I K H. unfold recover_with in H.
+  assert (Hpin : match aget c0 (pinset s) with Some p => aget c (table (fst (enqueue s p OPin))) = Some o' | None => aget c (table s) = Some o' end -> from s P c o').
+  { destruct (aget c0 (pinset s)) as [p|] eqn:Hp; intros H'.
+    - destruct (K _ _ Hp) as [_ Pp]. eapply enqueue_from; eauto. discriminate.
+    - left. exists o'. auto. }
+  destruct x; try (left; exists o'; auto; fail).
+  - apply Hpin. destruct (aget c0 (pinset s)); exact H.
+  - destruct (N.eq_dec c c0) as [->|Hn].
+    + destruct (enqueue_result s (pincid c0) OUnpin I) as (o & Ho & T & _); [discriminate|]. cbn [pincid pcid] in Ho. assert (o = o') by congruence. subst o'.
+      right. right. congruence.
+    + apply (from_frame s (fst (enqueue s (pincid c0) OUnpin))); [|exact H]. apply enqueue_frame; [exact I | discriminate | exact Hn].
+  - apply Hpin. destruct (aget c0 (pinset s)); exact H. Qed.
+
+Lemma recover_with_persist s c0 x c : Inv s -> aget c (table s) <> None -> aget c (table (fst (recover_with s c0 x))) <> None.
+Proof. intros I H. unfold recover_with. destruct x; auto; try (destruct (aget c0 (pinset s)); auto); apply enqueue_persist; auto; discriminate. Qed.
+
+Lemma from_trans s1 s2 (P : tpin -> Prop) c o2 o3 : (forall c p, aget c (pinset s1) = Some p -> P p) ->
+  from s1 P c o2 -> aget c (table s2) = Some o2 -> from s2 P c o3 -> from s1 P c o3.
+Proof. intros _ F1 H2 F3. destruct F3 as [(o & Ho & T & Q)|[F3|F3]]; [|right; left; exact F3|right; right; exact F3].
+  rewrite H2 in Ho. injection Ho as <-. destruct F1 as [(o1 & Ho1 & T1 & Q1)|[[F1 F1']|F1]].
+  - left. exists o1. split; auto. split; congruence.
+  - right. left. rewrite Q. auto.
+  - right. right. congruence. Qed.
+
+Lemma recover_list_from l (P : tpin -> Prop) : forall s c o', Inv s -> (forall c p, aget c (pinset s) = Some p -> pcid p = c /\ P p) ->
+  aget c (table (fst (recover_list s l))) = Some o' -> from s P c o'.
+Proof. induction l as [|[c0 x] r IH]; intros s c o' I K H; [left; exists o'; auto|]. cbn [recover_list] in H.
+  pose proof (recover_with_inv s c0 x I) as I1. destruct (recover_with_fields s c0 x) as (_ & Hp & _).
+  destruct (recover_with s c0 x) as [s1 [|]] eqn:E; cbn [fst] in *.
+  - assert (K1 : forall c p, aget c (pinset s1) = Some p -> pcid p = c /\ P p) by (rewrite Hp; exact K).
+    pose proof (IH s1 c o' I1 K1 H) as F3. destruct F3 as [(o & Ho & T & Q)|F3]; [|right; exact F3].
+    assert (F1 : from s P c o) by (apply (recover_with_from s c0 x P c o I K); now rewrite E).
+    destruct F1 as [(o1 & Ho1 & T1 & Q1)|[[F1 F1']|F1]].
+    + left. exists o1. split; auto. split; congruence.
+    + right. left. rewrite Q. auto.
+    + right. right. congruence.
+  - apply (recover_with_from s c0 x P c o' I K). now rewrite E. Qed.
+
+Lemma recover_list_persist l : forall s c, Inv s -> aget c (table s) <> None -> aget c (table (fst (recover_list s l))) <> None.
+Proof. induction l as [|[c0 x] r IH]; intros s c I H; [exact H|]. cbn [recover_list].
+  pose proof (recover_with_inv s c0 x I) as I1. pose proof (recover_with_persist s c0 x c I H) as H1.
+  destruct (recover_with s c0 x) as [s1 [|]]; cbn [fst] in *; auto. Qed.
+
+Lemma dispatch_from s (P : tpin -> Prop) c o' : Inv s -> aget c (table (dispatch s)) = Some o' -> from s P c o'.
+Proof. intros I H. eapply from_frame; [apply dispatch_frame; exact I|exact H]. Qed.
+Lemma dispatch_persist s c : Inv s -> aget c (table s) <> None -> aget c (table (dispatch s)) <> None.
+Proof. intros I H. pose proof (dispatch_frame s c I) as F. unfold opframe in F. destruct (aget c (table s)); [|congruence].
+  destruct (aget c (table (dispatch s))); [discriminate|contradiction]. Qed.
+
+(* one event: an entry afterwards comes from an entry before or from a pin P accepts; entries only disappear at a completion *)
+Lemma step_from s e (P : tpin -> Prop) c o' : Inv s -> (forall c p, aget c (pinset s) = Some p -> pcid p = c /\ P p) ->
+  (forall p, e = ETrack p -> P p) -> aget c (table (fst (step s e))) = Some o' -> from s P c o'.
+Proof. intros I K Pe H. unfold step in H. pose proof (step_raw_inv s e I) as I1. destruct (step_raw s e) as [s1 r] eqn:E. cbn [fst] in *.
+  assert (Es : s1 = fst (step_raw s e)) by now rewrite E.
+  pose proof (dispatch_from s1 P c o' I1 H) as F3. destruct F3 as [(o & Ho & T & Q)|F3]; [|right; exact F3].
+  assert (F1 : from s P c o).
+  { rewrite Es in Ho. clear H E. destruct e as [p|c0|c0|ord|c0 f|c0 m]; cbn [step_raw fst] in Ho.
+    - destruct (track_effect s p I) as (_ & _ & _ & Fo & Ft). destruct (N.eq_dec c (pcid p)) as [->|Hn]; [|eapply from_frame; eauto].
+      unfold track in *. destruct (pmeta p); [eapply from_frame; eauto|]. destruct (premote p).
+      + right. right. unfold ty in Ft. rewrite Ho in Ft. cbn in Ft. congruence.
+      + set (s0 := set_last _ _) in *. assert (I0 : Inv s0) by (apply (inv_ext s); auto).
+        assert (F0 : from s0 P (pcid p) o) by (eapply enqueue_from; eauto; discriminate). exact F0.
+    - destruct (untrack_effect s c0 I) as (_ & _ & _ & Fo & Ft). destruct (N.eq_dec c c0) as [->|Hn]; [|eapply from_frame; eauto].
+      right. right. unfold ty in Ft. rewrite Ho in Ft. cbn in Ft. congruence.
+    - eapply recover_with_from; eauto.
+    - eapply recover_list_from; eauto.
+    - destruct (complete_effect s c0 f I) as (_ & _ & Fo & Fc). destruct (N.eq_dec c c0) as [->|Hn]; [|eapply from_frame; [apply Fo|]; eauto].
+      destruct Fc as [[Esame _]|(cl & o0 & _ & _ & Ho0 & Hid & _ & _ & _ & Hres)]; [rewrite Esame in Ho; left; exists o; auto|].
+      destruct (snd (call_outcome s c0 f (ckd cl) o0)); [congruence|]. destruct Hres as (o1 & Ho1 & T1 & _). rewrite Ho in Ho1. injection Ho1 as <-.
+      (* the failed operation keeps its pin: read it off the table *)
+      left. exists o0. split; auto. split; auto. clear -I Ho Ho0.
+      unfold complete in Ho. destruct (find _ (calls s)) as [cl|]; [|congruence]. rewrite Ho0 in Ho.
+      destruct (negb (N.eqb (oid o0) (coid cl))); [congruence|]. destruct (if f then _ else _) as [i' ok].
+      match type of Ho with aget _ (table (dispatch ?s2)) = _ => destruct (dispatch_effect s2) as (sp & su & D); rewrite (de_table _ _ _ _ D), aget_mark in Ho;
+        assert (Ht2 : aget c0 (table s2) = None \/ exists o2, aget c0 (table s2) = Some o2 /\ opin o2 = opin o0) end.
+      { destruct ok; unfold clean, set_err_phase; cbn [table set_calls set_ipfs].
+        - destruct (current _ _ _); cbn [table set_table]; [left; apply aget_adel_same | right; exists o0; auto].
+        - rewrite Ho0. cbn [table set_table]. right. exists (set_phase PError o0). split; [apply aget_aput_same | reflexivity]. }
+      destruct Ht2 as [E|(o2 & E & Q2)]; rewrite E in Ho; cbn in Ho; [discriminate|]. injection Ho as <-. rewrite mark1_opin. exact Q2.
+    - left. exists o. auto. }
+  destruct F1 as [(o1 & Ho1 & T1 & Q1)|[[F1 F1']|F1]].
+  - left. exists o1. split; auto. split; congruence.
+  - right. left. rewrite Q. auto.
+  - right. right. congruence. Qed.
